@@ -14,14 +14,6 @@ def noBlankLineB (t : Text) : Bool := t.isEmpty || (splitNl t).all fun l => !bla
 /-- A line that carries a Paroxython hint marker (`#\s*paroxython\s*:` whatever the case). -/
 def isHintLine (l : Line) : Bool := isHint l
 
-/-- The marker regex, declaratively: `#`, whitespace, `paroxython` in any case, whitespace, `:`. -/
-def IsMarker (m : Text) : Prop :=
-  ∃ w1 p w2, m = '#' :: w1 ++ p ++ w2 ++ [':'] ∧ w1.all isWs = true ∧ w2.all isWs = true ∧
-    p.map asciiLower = "paroxython".toList
-
-/-- "A comment carrying a Paroxython hint": the marker occurs somewhere in it. -/
-def CarriesHint (s : Text) : Prop := ∃ a m b, s = a ++ m ++ b ∧ IsMarker m
-
 /-- The tokens that the loop takes into account when it remembers the "previous token":
 all but the comments it drops. -/
 def seen (t : Token) : Bool := !(t.kind == .comment && !isHint t.str)
